@@ -273,7 +273,7 @@ class DiscretizedSpace(TensorSpace):
         except AttributeError:
             bdry_fracs = self.partition.boundary_cell_fractions
             is_uniformly_weighted = (
-                np.allclose(bdry_fracs, 1.0) or
+                np.allclose(bdry_fracs, 1.0, rtol=1e-14, atol=0) or
                 self.exponent == float('inf'))
 
             self.__is_uniformly_weighted = is_uniformly_weighted
@@ -1930,12 +1930,14 @@ def _scaling_func_list(bdry_fracs, exponent):
     func_list = []
     for frac_l, frac_r in bdry_fracs:
         func_list_entry = []
-        if np.isclose(frac_l, 1.0):
+        # Only rounding errors are tolerated, a boundary cell that is
+        # slightly smaller or larger than the others must be scaled
+        if np.isclose(frac_l, 1.0, rtol=1e-14, atol=0):
             func_list_entry.append(None)
         else:
             func_list_entry.append(scaling(frac_l ** (1 / exponent)))
 
-        if np.isclose(frac_r, 1.0):
+        if np.isclose(frac_r, 1.0, rtol=1e-14, atol=0):
             func_list_entry.append(None)
         else:
             func_list_entry.append(scaling(frac_r ** (1 / exponent)))
